@@ -1,4 +1,4 @@
-import B6.Lemmas.MutableCanary
+import B6.Lemmas.MutableAtomic
 /-!
 # C13 — A rejected change leaves the world as it was
 
@@ -64,12 +64,20 @@ theorem rejected_unchanged_step {b : View} {o : Oracle} {l l' : Layer} {op : Op}
 
 /-! ## Merged changes -/
 
-/-- the full statement: a merged change either applies all of its parts, or reports an error and
-leaves the world literally untouched — it never ends "partially applied" -/
+/-- the outcome C13 demands of a merged change on the world `l` over `b`: all parts applied, or an error
+and the world literally untouched — never "partially applied" -/
+def AtomicOutcome (b : View) (o : Oracle) (l : Layer) (cs : List Change) : Prop :=
+  (∃ l', mergedApply b o l cs = (l', none) ∧ applyAll b o l cs = (l', none)) ∨
+  (∃ e, e ≠ Err.partiallyApplied ∧ mergedApply b o l cs = (l, some e))
+
+/-- **the full statement**: over any valid base whose `FindReferences` is complete, in every world reachable
+by any history of AddFeature / AddTag / RemoveTag / merged changes (whatever they answered), every merged
+change is atomic.  (`opOKsf` / `changesOK`: paths and areas do not name themselves — automatic with
+typed ids.)  Proved below: `merged_atomic`. -/
 def merged_atomic_statement : Prop :=
-  ∀ (b : View) (o : Oracle) (l : Layer) (cs : List Change),
-    (∃ l', mergedApply b o l cs = (l', none) ∧ applyAll b o l cs = (l', none)) ∨
-    (∃ e, e ≠ Err.partiallyApplied ∧ mergedApply b o l cs = (l, some e))
+  ∀ (b : View) (o : Oracle) (ops : List Op) (cs : List Change),
+    BaseOK b → AllValid b o → (∀ op ∈ ops, opOKsf op) → changesOK cs →
+    AtomicOutcome b o (runOps b o Layer.empty ops).1 cs
 
 /-- the canary is faithful for a change list: whatever the fresh overlay over the world accepts, the
 world accepts -/
@@ -335,6 +343,44 @@ theorem merged_atomic_of_refs {b : View} {o : Oracle} {l : Layer} (hb : b.IdsOK)
     (∃ e, e ≠ Err.partiallyApplied ∧ mergedApply b o l cs = (l, some e)) :=
   merged_atomic_partial b o l cs (canary_faithful hb hbl hl cs href)
 
+/-! ### the canary is faithful in every reachable world — no run-time hypothesis -/
+
+/-- **Canary faithfulness from the invariants.** In a world satisfying `Inv` (reference table = inverse of
+the overlay's references, copy discipline, every feature valid) over a base with a complete
+`FindReferences`, the fresh overlay `MergedChange.Apply` tries a change on gives the SAME answer as the
+world, for every change list.  Proof: `AddFeature`'s answer is "f invalid, or a feature depending on f.id
+becomes invalid" (`addFeature_err_iff`: validity makes extra referrers harmless, completeness
+(`refsComplete_view`) makes the referrer list sufficient) — a function of geometry and locations, on
+which canary and world agree (`Sim`); the invariants are preserved by every call on both (`inv_prim`). -/
+theorem canary_faithful_inv {b : View} {o : Oracle} {l : Layer} (hb : BaseOK b) (h : Inv b o l)
+    (cs : List Change) (hok : changesOK cs) :
+    (applyAll (l.view b (l.loc b)) o Layer.empty cs).2 = (applyAll b o l cs).2 := by
+  rw [applyAll_eq_prims, applyAll_eq_prims]
+  obtain ⟨hv0, hc⟩ := canary_init hb h
+  exact prims_faithful_inv hv0 hb _ Layer.empty l (sim_init b l h.feats) hc h hok
+
+/-- **Merged changes are atomic** in every world satisfying the invariants. -/
+theorem merged_atomic_inv {b : View} {o : Oracle} {l : Layer} (hb : BaseOK b) (h : Inv b o l)
+    (cs : List Change) (hok : changesOK cs) : AtomicOutcome b o l cs :=
+  merged_atomic_partial b o l cs (fun hc => by rw [← canary_faithful_inv hb h cs hok]; exact hc)
+
+/-- **the invariants hold in every reachable world** -/
+theorem inv_reachable {b : View} {o : Oracle} (hb : BaseOK b) (hav : AllValid b o) (ops : List Op)
+    (hops : ∀ op ∈ ops, opOKsf op) : Inv b o (runOps b o Layer.empty ops).1 :=
+  inv_runOps hb ops Layer.empty (inv_empty hav) hops
+
+/-- **`merged_atomic_statement` holds.** -/
+theorem merged_atomic : merged_atomic_statement :=
+  fun b o ops cs hb hav hops hcs => merged_atomic_inv hb (inv_reachable hb hav ops hops) cs hcs
+
+/-- in particular `canaryRefsAgree`-style agreement is no longer assumed anywhere: the former hypothesis of
+`merged_atomic_of_refs` is not needed in reachable worlds -/
+theorem canary_faithful_reachable {b : View} {o : Oracle} (hb : BaseOK b) (hav : AllValid b o) (ops : List Op)
+    (hops : ∀ op ∈ ops, opOKsf op) (cs : List Change) (hcs : changesOK cs) :
+    CanaryFaithful b o (runOps b o Layer.empty ops).1 cs := by
+  intro hc
+  rw [← canary_faithful_inv hb (inv_reachable hb hav ops hops) cs hcs]; exact hc
+
 /-! ## Non-vacuity -/
 
 /-- base: a counter-clockwise triangle 1-2-3, closed path 1005 through it, area 2006 over the path -/
@@ -368,5 +414,22 @@ example : (rootView exampleRoot).IdsOK ∧ (rootView exampleRoot).LocOK ∧ Laye
     canaryRefsAgree (rootView exampleRoot) exampleOracle Layer.empty
       [.addTags [(1, ("name", ⟨"s", "x"⟩))], .addFeatures [⟨1005, [], .path [1, 2, 3]⟩]] = true :=
   ⟨rootView_idsOK _, rootView_locOK _, fun i f h => by simp [Layer.empty] at h, by decide⟩
+
+/-- the hypotheses of `merged_atomic` are met by the root of the examples above (a valid triangle under an
+area) with a history that copies the path by a tag edit (the case in which C15's copy discipline fails)
+and a merged change with a rejected feature part -/
+example : BaseOK (rootView exampleRoot) ∧ AllValid (rootView exampleRoot) exampleOracle ∧
+    (∀ op ∈ [Op.addTag 1005 ("#highway", ⟨"s", "a"⟩), Op.addFeature ⟨2, [], .point (0, 11)⟩], opOKsf op) ∧
+    changesOK [.addTags [(1, ("name", ⟨"s", "x"⟩))], .addFeatures [⟨1005, [], .path [1, 2, 3]⟩]] := by
+  refine ⟨rootView_baseOK _, rootView_allValid _ _ (by decide), ?_, ?_⟩
+  · intro op hop
+    simp only [List.mem_cons, List.not_mem_nil, or_false] at hop
+    rcases hop with rfl | rfl
+    · trivial
+    · show selfFree _ = true; decide
+  · intro p hp
+    simp only [List.flatMap_cons, List.flatMap_nil, Change.prims, List.map_cons, List.map_nil, List.append_nil,
+      List.cons_append, List.nil_append, List.mem_cons, List.not_mem_nil, or_false] at hp
+    rcases hp with rfl | rfl <;> decide
 
 end B6.Props.C13
